@@ -89,16 +89,25 @@ fn edit_json(e: &Edit) -> Value {
 
 pub const CONTENT_TYPE: &str = "Content-Type: application/vscode-jsonrpc; charset=utf-8\r\n";
 
-/// The frames of a whole script. Document versions increase per document the way a real client
-/// numbers them (didOpen and every didChange get the next number, also across close/reopen).
+/// The frames of a whole script. Document versions are numbered the way real clients do, in one of
+/// three styles chosen by the script itself (so that every caller sees the same bytes): a fresh
+/// buffer starts at 1 again when a document is reopened and each change adds 1 (VS Code); numbers
+/// keep growing across close/reopen; or a fresh buffer starts at 1 and numbers are skipped (+2).
+/// In every style the versions of one open session increase strictly.
 pub fn frames_of(script: &[Step]) -> Vec<Vec<u8>> {
+    let style = script.len() % 3;
     let mut versions: BTreeMap<&str, i64> = BTreeMap::new();
     script
         .iter()
         .map(|st| match &st.op {
-            ClientOp::Open { uri, .. } | ClientOp::Change { uri, .. } => {
+            ClientOp::Open { uri, .. } => {
                 let v = versions.entry(uri.as_str()).or_insert(0);
-                *v += 1;
+                *v = if style == 1 { *v + 1 } else { 1 };
+                frame_with_version(st, Some(*v))
+            }
+            ClientOp::Change { uri, .. } => {
+                let v = versions.entry(uri.as_str()).or_insert(0);
+                *v += if style == 2 { 2 } else { 1 };
                 frame_with_version(st, Some(*v))
             }
             _ => frame_with_version(st, None),
